@@ -962,6 +962,17 @@ def construct_class(src, outcome, cls, mutation):
                     o = _origin(src, v, k + 1)
                     if o in HOLE_ORIGINS:
                         return o
+    # the offending VALUE (from the message) is an element of a heterogeneous list literal that a `for` iterates: the
+    # loop variable carried it here through calls / parameters
+    mv = re.search(r"but `((?:[^`]|\\`)*)` has type", outcome.get("message") or "")
+    if mv:
+        val = mv.group(1)
+        for fm in re.finditer(r"\bfor \w+ in \[([^\]]*)\]", src):
+            elems = [x.strip() for x in fm.group(1).split(",")]
+            kinds = set("str" if x.startswith('"') else "int" if re.match(r"^-?\d+$", x) else "bool" if x in ("True", "False")
+                        else "other" for x in elems)
+            if val in elems and len(kinds - {"other"}) >= 2:
+                return "for-over-list-literal"
     head = text.lstrip("(")
     if head.startswith("if "):
         return "if-branch-join"
@@ -995,7 +1006,7 @@ def relocate_funs(rng, src):
 def generic_snippet(rng, k):
     """Fully annotated GENERIC functions with calls whose results land in annotated positions. Variables follow the
     generator's naming (letter + number), so the mutations act on the generic bodies too."""
-    kinds = rng.sample(["id", "or", "first", "wrap", "pair", "apply"], rng.randrange(1, 4))
+    kinds = rng.sample(["id", "or", "first", "wrap", "pair", "apply", "choose"], rng.randrange(1, 4))
     out = []
     for kind in kinds:
         k += 1
@@ -1014,6 +1025,12 @@ def generic_snippet(rng, k):
         elif kind == "wrap":
             out += ["fun %s<T>(a1: T): List<T> { [a1] }" % n, 'let %sl: List<String> = %s("a")' % (n, n),
                     "for x9 in %sl { println(x9 ^ \"w\") }" % n]
+        elif kind == "choose":
+            # one type parameter instantiated from several arguments of different (compatible) runtime types
+            out += ["fun %s<T>(a1: T, a2: T, a3: Bool): T {\n  if a3 {\n    a1\n  } else {\n    a2\n  }\n}" % n,
+                    "let %sa: List<Int> = %s([], [1, 2], False)" % (n, n), "let %sb: Option<Int> = %s(None, Some(3), False)" % (n, n),
+                    "let %sc: Int = %s(1, 2, True)" % (n, n),
+                    "println(string_repr((%sa, %sb, %sc + 1)))" % (n, n, n)]
         elif kind == "pair":
             out += ["fun %s<A, B>(a1: A, a2: B): (B, A) { (a2, a1) }" % n, 'let (%sp, %sq) = %s(1, "s")' % (n, n, n),
                     "println(string_repr((%sp ^ \"x\", %sq + 1)))" % (n, n)]
